@@ -26,3 +26,36 @@ PROPS = {
         assumptions=["CBMC's IEEE-754 float model", "derive_more operator derives compiled as in the real build"],
     ),
 }
+
+NOT_YET = "not claimed yet in this commit: unit under construction (see DESIGN.md §4 for the planned contracts)"
+NOT_APPLICABLE = {
+    "C01": NOT_YET, "C02": NOT_YET, "C03": NOT_YET, "C04": NOT_YET, "C06": NOT_YET, "C07": NOT_YET,
+    "C10": NOT_YET, "C11": NOT_YET, "C12": NOT_YET, "C13": NOT_YET, "C14": NOT_YET, "C15": NOT_YET, "C17": NOT_YET,
+    "C08": "schedule/thread independence and run-to-run determinism: Kani has no threads, Verus would need its own permission types inside rayon; determinism of two runs is a 2-safety property with no per-call contract; the one contract-shaped clause (optimize_with keeps a supplied generator) sits behind State + eyre, which neither verifier reaches (DESIGN.md §2 facts 6, 7, 18; §6)",
+    "C16": "whole-run property of 21 template compositions of dyn components over State; no function-level contract decides it, and composing per-component stack-effect contracts needs an interpreter of the template tree, i.e. a model (DESIGN.md §6)",
+    "C18": "all mechanisms live in State-based execute bodies built from multizip loops and f64 arithmetic; Verus rejects iterator adapters and float negation and treats f64 as uninterpreted, Kani cannot enter State (DESIGN.md §2 facts 7, 19; §6)",
+    "C19": "iterator chains, powf and WeightedIndex sampling inside State-based execute bodies; the stated invariants are numerical (DESIGN.md §6)",
+    "C20": "energy conservation 'up to rounding' needs real arithmetic over f64 (uninterpreted in Verus) inside State-based execute bodies using .iter().position(closure) (DESIGN.md §6)",
+}
+
+MANIFEST_TEXT = {
+    "C05": dict(
+        category="proof",
+        technique="Verus contracts on the real Individual methods (extracted verbatim each run), Z3",
+        text=("Every method of `Individual` is extracted verbatim from /repo on each run and verified by Verus against a contract "
+              "over the view (solution, objective): solution_mut clears the objective and hands out exactly the solution; "
+              "evaluate_with stores the function's result for the unchanged solution; readers and clone keep both fields "
+              "together. Unbounded (all encodings, all objective values, all objective functions)."),
+        note=("Trusted: mirror of the Problem trait (associated types only), vstd specs of Option/Clone. The clause about every "
+              "step of every shipped heuristic is NOT decided (whole runs); listed under uncovered_clauses in the evidence."),
+    ),
+    "C09": dict(
+        category="proof",
+        technique="Kani/CBMC Hoare triples over full-domain symbolic f64 on the real SingleObjective/MultiObjective",
+        text=("Construction, total order, min/max/sort and operator closure of SingleObjective are decided for all 2^64 bit patterns "
+              "per argument by loop-free harnesses (complete). MultiObjective construction and Pareto-order laws are decided for "
+              "all values at vector lengths 0..3 (length is the only bound; evidence lists it, and then reports level=other). "
+              "The five operator-closure obligations fail on the unchanged tree and are recorded as known findings with witnesses."),
+        note="Trusted: CBMC's IEEE-754 model, Kani's translation of the derive_more operator impls. Vector length <= 3 (thorough) / <= 2 pairs (quick).",
+    ),
+}
